@@ -321,6 +321,60 @@ Parse(toks) ==
        exc  |-> \E i \in 1..Len(res) : \E j \in 1..Len(res[i]) : res[i][j].exc]
 
 ----------------------------------------------------------------------------
+\* in-place EDITS of a structure (PkgRelationEdit, TracePkgRelation step 7): a structure the caller got from
+\* parse_relations is a tree of mutable Python objects -- the result list, the conjunct lists, the dicts, the `arch`
+\* list, the `restrictions` list and its group lists -- and every one of them has its own mutators.  An edit is a
+\* record [lv, op, i, j, g, k, x]:
+\*   lv  the CONTAINER whose mutator is called: "conj" (the result list), "alt" (conjunct i), "key" (the dict of
+\*       atom i, j: d[key] = x), "arch" (d['arch'] of atom i, j), "groups" (d['restrictions']), "terms" (group g of it)
+\*   op  "append" (x) / "insert" (x before position k) / "del" (position k) / "set" (position k := x) / "rev"
+\*       (list.reverse());  for lv = "key" the key that is assigned: "name" / "q" / "v" / "a" / "r"
+\*   x   the new item -- a conjunct, an atom, an [e, id] entry (a namedtuple), a group -- or the new value of the
+\*       key (0 where the operation has none)
+\* ApplyEdit is the value semantics of the Python list methods; EditOk keeps the structure inside the domain (no
+\* list becomes empty; the nested list that is edited exists).
+SeqDel(s, k)    == SubSeq(s, 1, k - 1) \o SubSeq(s, k + 1, Len(s))
+SeqIns(s, k, x) == SubSeq(s, 1, k - 1) \o <<x>> \o SubSeq(s, k, Len(s))
+SeqRev(s)       == [n \in 1..Len(s) |-> s[Len(s) + 1 - n]]
+ListEdit(s, e)  == CASE e.op = "append" -> Append(s, e.x)
+                     [] e.op = "insert" -> SeqIns(s, e.k, e.x)
+                     [] e.op = "del"    -> SeqDel(s, e.k)
+                     [] e.op = "set"    -> [s EXCEPT ![e.k] = e.x]
+                     [] e.op = "rev"    -> SeqRev(s)
+ListOk(s, e)    == CASE e.op \in {"append", "rev"} -> TRUE
+                     [] e.op = "insert" -> e.k \in 1..(Len(s) + 1)
+                     [] e.op = "set"    -> e.k \in 1..Len(s)
+                     [] e.op = "del"    -> e.k \in 1..Len(s) /\ Len(s) > 1
+                     [] OTHER -> FALSE
+KeyEdit(a, e)   == CASE e.op = "name" -> [a EXCEPT !.name = e.x]
+                     [] e.op = "q"    -> [a EXCEPT !.q = e.x]
+                     [] e.op = "v"    -> [a EXCEPT !.v = e.x]
+                     [] e.op = "a"    -> [a EXCEPT !.a = e.x]
+                     [] e.op = "r"    -> [a EXCEPT !.r = e.x]
+AtomLevels == {"key", "arch", "groups", "terms"}                 \* the containers inside one dict
+EditLevels == {"conj", "alt"} \cup AtomLevels
+AtomAt(r, e) == e.i \in 1..Len(r) /\ e.j \in 1..Len(r[e.i])
+EditOk(r, e) == CASE e.lv = "conj"   -> ListOk(r, e)
+                  [] e.lv = "alt"    -> e.i \in 1..Len(r) /\ ListOk(r[e.i], e)
+                  [] e.lv = "key"    -> AtomAt(r, e) /\ e.op \in {"name", "q", "v", "a", "r"}
+                  [] e.lv = "arch"   -> AtomAt(r, e) /\ r[e.i][e.j].a.some /\ ListOk(r[e.i][e.j].a.l, e)
+                  [] e.lv = "groups" -> AtomAt(r, e) /\ r[e.i][e.j].r.some /\ ListOk(r[e.i][e.j].r.l, e)
+                  [] e.lv = "terms"  -> /\ AtomAt(r, e) /\ r[e.i][e.j].r.some
+                                        /\ e.g \in 1..Len(r[e.i][e.j].r.l) /\ ListOk(r[e.i][e.j].r.l[e.g], e)
+                  [] OTHER -> FALSE
+ApplyEdit(r, e) == CASE e.lv = "conj"   -> ListEdit(r, e)
+                     [] e.lv = "alt"    -> [r EXCEPT ![e.i] = ListEdit(@, e)]
+                     [] e.lv = "key"    -> [r EXCEPT ![e.i][e.j] = KeyEdit(@, e)]
+                     [] e.lv = "arch"   -> [r EXCEPT ![e.i][e.j].a.l = ListEdit(@, e)]
+                     [] e.lv = "groups" -> [r EXCEPT ![e.i][e.j].r.l = ListEdit(@, e)]
+                     [] e.lv = "terms"  -> [r EXCEPT ![e.i][e.j].r.l[e.g] = ListEdit(@, e)]
+\* the structures after each edit of a sequence (<<>> from the first edit on that is not applicable)
+RECURSIVE EditTrail(_, _, _)
+EditTrail(r, es, n) == IF n > Len(es) THEN <<>>
+                       ELSE IF ~EditOk(r, es[n]) THEN <<>>
+                       ELSE LET r2 == ApplyEdit(r, es[n]) IN <<r2>> \o EditTrail(r2, es, n + 1)
+
+----------------------------------------------------------------------------
 \* the structure space
 
 FlagSeqs(n)  == UNION {[1..k -> BOOLEAN] : k \in 1..n}            \* plain/negated, 1..n entries
